@@ -164,8 +164,14 @@ class WorldAdapter:
                 if env.w.get_components(victim):
                     env.w.delete_entity(victim, immediate=True)
 
+        # components are individuals: in every third behaviour all of them compare EQUAL by value and hash alike (value
+        # objects, e.g. dataclass components) - the world and its dispatcher must still tell them apart
+        env.equal = self.counter % 3 == 0
         base_ns = {'on_add': lifecycle('on_add'), 'on_remove': lifecycle('on_remove'), 'probe': probe,
-                   '__bool__': lambda self: not getattr(self, 'falsy', False)}
+                   '__bool__': lambda self: not getattr(self, 'falsy', False),
+                   '__eq__': lambda self, other: (self is other) or (env.equal and hasattr(other, '_verif_component')),
+                   '__hash__': lambda self: 1 if env.equal else id(self) >> 4,
+                   '_verif_component': True}
         env.types = {}
         for t in topo(K['Types'], K['Bases']):
             root = (desper.Controller,) if controllers else (object,)
